@@ -120,6 +120,61 @@ fn exec_t<T: Sc>(sc: &Scenario) -> RunReport {
             closures.push(CallKind::FuncDeriv(j, *k));
         }
     }
+    // two (three) closures of the SAME evaluation misbehave with lengths that cancel in the
+    // total (n+2 and n-2, 2n and empty, n+1 / n+1 / n-2): a check on the total number of
+    // elements instead of on every output would pass them
+    let mut plans: Vec<Vec<FaultRule>> = vec![];
+    let m = sc.model.m();
+    if m >= 2 && n >= 1 {
+        let nth = rng.below(3) as u32;
+        let persist = if rng.chance(0.5) { Persist::Forever } else { Persist::Once };
+        let (j1, j2) = (rng.usize_in(0, m - 1), rng.usize_in(0, m - 2));
+        let j2 = if j2 >= j1 { j2 + 1 } else { j2 };
+        let d = rng.usize_in(1, n.min(3));
+        for (a, b) in [(n + d, n - d), (2 * n, 0), (0, 2 * n)] {
+            plans.push(vec![
+                FaultRule { trigger: Trigger::Kind(CallKind::Func(j1), nth), action: FaultAction::WrongLen(a), persist },
+                FaultRule { trigger: Trigger::Kind(CallKind::Func(j2), nth), action: FaultAction::WrongLen(b), persist },
+            ]);
+        }
+        if m >= 3 && n >= 2 {
+            let j3 = (0..m).find(|j| *j != j1 && *j != j2).unwrap();
+            plans.push(vec![
+                FaultRule { trigger: Trigger::Kind(CallKind::Func(j1), nth), action: FaultAction::WrongLen(n + 1), persist },
+                FaultRule { trigger: Trigger::Kind(CallKind::Func(j2), nth), action: FaultAction::WrongLen(n + 1), persist },
+                FaultRule { trigger: Trigger::Kind(CallKind::Func(j3), nth), action: FaultAction::WrongLen(n - 2), persist },
+            ]);
+        }
+        // two functions depending on the same parameter: their derivative closures
+        for k in 0..sc.model.nparams {
+            let users: Vec<usize> = sc.model.funcs.iter().enumerate().filter(|(_, f)| f.params.contains(&k)).map(|(j, _)| j).collect();
+            if users.len() >= 2 {
+                plans.push(vec![
+                    FaultRule { trigger: Trigger::Kind(CallKind::FuncDeriv(users[0], k), nth), action: FaultAction::WrongLen(n + d), persist },
+                    FaultRule { trigger: Trigger::Kind(CallKind::FuncDeriv(users[1], k), nth), action: FaultAction::WrongLen(n - d), persist },
+                ]);
+                break;
+            }
+        }
+    }
+    for plan in plans {
+        let mut sub = base.clone();
+        sub.faults = plan;
+        let mut r = RunReport::default();
+        run_once::<T>(&sub, &mut r, false);
+        rep.executions += r.executions;
+        rep.events += r.events;
+        rep.probe("complementary_wrong_length_plans");
+        for (k, v) in r.probes {
+            *rep.probes.entry(k).or_insert(0) += v;
+        }
+        rep.eat(r.digest);
+        for v in r.violations {
+            if !rep.violations.iter().any(|w| w.class == v.class && w.site == v.site) {
+                rep.violations.push(v);
+            }
+        }
+    }
     for c in closures {
         for len in [0usize, n.saturating_sub(1), n + 1, 2 * n + 3] {
             if len == n {
